@@ -13,9 +13,12 @@
 import PyTough.Model.ListingHistory
 import PyTough.Proofs.ListingHistory
 import PyTough.Proofs.ListingFile
+import PyTough.Proofs.ListingSeriesStep
+import PyTough.Proofs.ListingSeriesTimes
+import PyTough.Proofs.ListingSeriesTerm
 
 namespace Props.C06
-open Py Model Model.Listing Proofs.History
+open Py Model Model.Listing Proofs.History Proofs.SeriesStep Proofs.SeriesTimes
 
 /-! ### one pass over a table returns exactly the selected cells -/
 
@@ -46,6 +49,136 @@ example : scanSel exRead exCol (sortSel [(2, ['b'], false, 0), (0, ['a'], true, 
     = .ok ([(1, .fin true 1 0), (2, .fin false 3 0), (0, .fin false 30 0)], []) := by decide
 example : sortSel [(2, ['b'], false, 0), (0, ['a'], true, 1), (2, ['a'], false, 2)]
     = [(0, ['a'], true, 1), (2, ['a'], false, 2), (2, ['b'], false, 0)] := by decide
+
+/-! ### … and these cells are the cells STEPPING shows (one table at one result time, TOUGH2-family row reader)
+
+  `L` are the lines of the table from its first results line on, at one result time.  The stepping reader (`index = i` →
+  read_tables → `read_table_TOUGH2`, model `readRowsL`) reads as k-th row line the line `rowOffset skips k` of `L` (one line per
+  earlier row plus the recorded `skiplines`), and stores `read_table_line(line)` in the row its key addresses, giving table `t'`.
+  `rowInPlace t L k r` (decidable, per file and time): the key on the k-th row line addresses row `r` and no later row line
+  of the table addresses `r` again.  `steppingCell t' r e` is `t'[r][column of e]`, negated for a reversed name. -/
+
+/-- PARTIAL (TOUGH2-family readers: TOUGH2, TOUGH2_MP, TOUGH+, TOUGHREACT, TOUGH3 — not the AUTOUGH2 row loop; explicit
+    decidable hypotheses `rowInPlace`, `data.size = rows.size`).  The value history() appends for a selected entry whose
+    line is the k-th row line equals the cell of row `r`, column `e.col`, of the table the stepping reader has built from the
+    same lines — same value, same sign rule, KeyError on both sides for an unknown column.
+    Not proved: that `row_line[r]` recorded at the first time IS `rowOffset skips k` (set-up's bookkeeping), and that
+    skip_to_table + skip_to_results_line land on `L` (`Aligned`; checked on every run by the correspondence). -/
+theorem history_cell_eq_stepping_cell_partial (t t' : Table) (L rest' : List Str)
+    (hstep : readRowsL t.keyPos t.cols.length t.numpos t.skips L t = .ok (t', rest'))
+    (hsz : t.data.size = t.rows.size) (k r : Nat) (hk : k < t.skips.length) (hin : rowInPlace t L k r = true)
+    (e : Sel) (he : e.1 = (rowOffset t.skips k : Nat)) :
+    cellOf (fun l => readTableLineTOUGH2 l t.cols.length t.numpos) (colIdx t.cols) L e = steppingCell t' r e :=
+  cellOf_eq_steppingCell t t' L rest' hstep hsz k r hk hin e he
+
+/-- PARTIAL (same restrictions).  The whole one-pass read of one table at one result time against stepping: for ANY selection
+    `ts` of row lines of the table (any number, any order, repeats, reversed names; `row e` = the table row entry `e` stands for),
+    history() returns, entry by entry in sorted order, the cells of the stepping reader's table — and raises exactly when one of
+    those cells does not exist. -/
+theorem history_table_eq_stepping_partial (t t' : Table) (line0 : Str) (rest0 rest' : List Str)
+    (hstep : readRowsL t.keyPos t.cols.length t.numpos t.skips (line0 :: rest0) t = .ok (t', rest'))
+    (hsz : t.data.size = t.rows.size) (ts : List Sel) (row : Sel → Nat)
+    (hsel : ∀ e ∈ ts, ∃ k, k < t.skips.length ∧ e.1 = (rowOffset t.skips k : Nat) ∧ rowInPlace t (line0 :: rest0) k (row e) = true) :
+    (scanSel (fun l => readTableLineTOUGH2 l t.cols.length t.numpos) (colIdx t.cols) (sortSel ts) 0 line0 rest0).map (·.1)
+      = (sortSel ts).mapM (fun e => steppingCell t' (row e) e) := by
+  have h1 := (history_table_eq_cells (fun l => readTableLineTOUGH2 l t.cols.length t.numpos) (colIdx t.cols) line0 rest0 ts
+    (by intro e he; obtain ⟨k, _, hk, _⟩ := hsel e he; rw [hk]; exact Int.natCast_nonneg _)).1
+  rw [h1]
+  apply mapM_congr_mem
+  intro e he
+  obtain ⟨k, hk, hek, hin⟩ := hsel e ((sortSel_perm ts).mem_iff.mp he)
+  exact cellOf_eq_steppingCell t t' _ rest' hstep hsz k (row e) hk hin e hek
+
+-- a table of two rows printed on lines 0 and 2 (a blank line between them: skiplines = [1, 0])
+private def exL : List Str := ["  AA 1     1 0.99013E+07 0.00000E+00-0.12409E+03\n".toList, "\n".toList,
+  "  BA 1     2 0.94153E+07 0.19209-103-0.66842E+01\n".toList]
+private def exT : Table := { mkTable [['P'], ['T'], ['X']] #[["AA 1 ".toList], ["BA 1 ".toList]] 1 false with
+  keyPos := [2], numpos := [some 12, some 24, some 36, some 49], skips := [1, 0] }
+-- stepping succeeds on it; both row lines are in place; row 1 is printed on line 2
+example : (match readRowsL exT.keyPos exT.cols.length exT.numpos exT.skips exL exT with
+    | .ok (t', r) => t'.data == #[#[.fin false 99013 2, .fin false 0 (-5), .fin true 12409 (-2)],
+                                  #[.fin false 94153 2, .fin false 19209 (-108), .fin true 66842 (-4)]] && r.isEmpty
+    | .error _ => false) = true := by decide
+example : exT.data.size = exT.rows.size ∧ rowInPlace exT exL 0 0 = true ∧ rowInPlace exT exL 1 1 = true ∧ rowOffset exT.skips 1 = 2 := by decide
+-- history() asked for X of row 1 (line 2) and then P of row 0 reads them in line order
+example : (scanSel (fun l => readTableLineTOUGH2 l 3 exT.numpos) (colIdx exT.cols) (sortSel [(2, ['X'], false, 0), (0, ['P'], false, 1)]) 0
+    (exL.headD []) exL.tail).map (·.1) = .ok [(1, .fin false 99013 2), (0, .fin true 66842 (-4))] := by decide
+
+/-! ### over all result times: one value per result time, in time order
+
+  `valuesAt … pb i` is what history() appends at ONE result position `pb` with index `i` — it seeks there and sets the index
+  before reading, so it is a function of the position alone; `visitAll f ps 0` visits the positions `ps` in turn with indices
+  0, 1, 2, …; `seriesOf k hits` are the values appended for selection item `k`. -/
+
+/-- Whole call, every simulator, any selection, with or without short output: a history() call that returns series has
+    visited every result position of the file in turn (`hitss` has one entry per position, in file order = time order), what it
+    appended at a position does not depend on the positions before it, and the series it returns for item `k` is the
+    concatenation, in that order, of the values appended for `k` at each position (paired with `fulltimes` exactly when its
+    length is the number of full result times — the Boolean). -/
+theorem history_series_visits_every_time (items : List Item) (short : Bool) (env : Rd) (c c' : Cur) (r : List (Bool × List FVal))
+    (h : historyC items short env c = .ok (some r, c')) :
+    ∃ tsel hitss, orderedSelection env items = .ok tsel ∧
+      visitAll (valuesAt env tsel short (fileTablesOf env) env) (resultPositions env) 0 = .ok hitss ∧
+      hitss.length = (resultPositions env).length ∧
+      r = (List.range items.length).map fun k =>
+        (((hitss.map (seriesOf k)).flatten).length == env.fulltimes.size, (hitss.map (seriesOf k)).flatten) :=
+  historyC_series items short env c c' r h
+
+/-- … so when every visited position contributes exactly one value `vs[i]` for item `k` (a row present at every time), the
+    series of `k` is `vs`: one value per result time, in time order. -/
+theorem series_one_value_per_time (k : Nat) (hitss : List (List (Nat × FVal))) (vs : List FVal)
+    (h : hitss.map (seriesOf k) = vs.map (fun v => [v])) :
+    (hitss.map (seriesOf k)).flatten = vs ∧ ((hitss.map (seriesOf k)).flatten).length = hitss.length := by
+  have := flatten_singletons k hitss vs h
+  refine ⟨this, ?_⟩
+  rw [this]
+  have := congrArg List.length h
+  simpa using this.symm
+
+/-- One table at one result position (any simulator): once skip_to_table has brought the file to the table, history() finds the
+    first results line with `skip_to_results_line` (`L` = the lines from it on) and what it appends for that table is exactly the
+    one-pass read `scanSel` over `L` — the function the theorems above are about — with the stepping reader's own
+    `read_table_line` and column index of that table. -/
+theorem history_one_table_is_one_scan (tname : String) (ts : List Sel) (env : Rd) (c : Cur) (t : Table) (k n : Nat) (L : List Str)
+    (ht : env.tables.lookup tname = some t) (hne : t.cols ≠ [])
+    (hs : skipToResultsLineL (expectedOf tname t) c.pos.rest c.pos.no 1 = some (k, ⟨n, L⟩)) :
+    (historyTable tname ts env c).map (·.1)
+      = match scanSel (readTableLineOf env.fam t) (colIdx t.cols) ts 0 (L.headD []) L.tail with
+        | .ok (hits, _) => .ok hits
+        | .error e => .error (.py e) :=
+  historyTable_eq_scan tname ts env c t k n L ht hne hs
+
+-- an AUTOUGH2-style file with two result times, an element table of two rows; items: T of row 1 (by index), P of row 'A 1' (by name)
+private def exR1 : List Str := [" OUTPUT\n".toList, " EEEEE\n".toList, "\n".toList, " A 1  1  1.5 2.5\n".toList, " B 1  2  3.5 4.5\n".toList, " EEEEE\n".toList]
+private def exR2 : List Str := [" OUTPUT\n".toList, " EEEEE\n".toList, "\n".toList, " A 1  1  5.5 6.5\n".toList, " B 1  2  7.5 8.5\n".toList, " EEEEE\n".toList]
+private def exTA : Table := { mkTable [['P'], ['T']] #[["A 1".toList], ["B 1".toList]] 1 false with keyPos := [1], numpos := [some 8] }
+private def exEnv : Rd := {
+  all := exR1 ++ exR2
+  isOutputData := false
+  pos := ⟨0, exR1 ++ exR2⟩
+  fam := Fam.autough2
+  allpos := #[⟨0, exR1 ++ exR2⟩, ⟨6, exR2⟩]
+  fullpos := #[⟨0, exR1 ++ exR2⟩, ⟨6, exR2⟩]
+  short := #[false, false]
+  fulltimes := #[zero, zero]
+  times := #[zero, zero]
+  tables := [("element", exTA)] }
+private def exItems : List Item := [⟨['e'], .int 1, ['T']⟩, ⟨['e'], .name ["A 1".toList], ['P']⟩]
+-- (evaluated by the kernel: the whole call on the concrete file)
+example : (match historyC exItems false exEnv ⟨exEnv.pos, 0⟩ with
+    | .ok (some r, _) => r == [(true, [.fin false 45 (-1), .fin false 85 (-1)]), (true, [.fin false 15 (-1), .fin false 55 (-1)])]
+    | _ => false) = true := by decide +kernel
+example : (match orderedSelection exEnv exItems with
+    | .ok tsel => (match visitAll (valuesAt exEnv tsel false (fileTablesOf exEnv) exEnv) (resultPositions exEnv) 0 with
+        | .ok hitss => hitss == [[(1, .fin false 15 (-1)), (0, .fin false 45 (-1))], [(1, .fin false 55 (-1)), (0, .fin false 85 (-1))]]
+        | _ => false)
+    | _ => false) = true := by decide +kernel
+example : [[(1, FVal.fin false 15 (-1)), (0, .fin false 45 (-1))], [(1, .fin false 55 (-1)), (0, .fin false 85 (-1))]].map (seriesOf 0)
+    = [FVal.fin false 45 (-1), .fin false 85 (-1)].map (fun v => [v]) := by decide
+
+example : exEnv.tables.lookup "element" = some exTA := rfl
+example : exTA.cols ≠ [] ∧ (skipToResultsLineL (expectedOf "element" exTA) (exR1.drop 2) 2 1).map (fun x => (x.1, x.2.no, x.2.rest))
+    = some (2, 3, exR1.drop 3) := by decide +kernel
 
 /-! ### a connection named in reverse order yields the negated series -/
 
@@ -88,6 +221,78 @@ theorem skipto_progresses (kws : List Str) (start : Nat) (l : Str) (r : List Str
   Proofs.File.skipTo_progress kws start l r n
 
 example : skipToNonblankL [[' ', '\n'], ['\n']] 0 = none ∧ (skipToNonblankL [[' ', '\n'], ['x', '\n']] 0).isSome = true := by decide
+
+/-! ### the whole call: it fails to return exactly when the read at ONE result position fails to return -/
+
+/-- converting the selection (`ordered_selection`: table names, row names, reversed names, row_line and short-output indices,
+    sorting) never spins, for any reader and any selection -/
+theorem ordered_selection_never_spins (s : Rd) (items : List Item) : orderedSelection s items ≠ .error .diverges :=
+  Proofs.SeriesTerm.orderedSelection_nodiv s items
+
+/-- Whole call, every simulator, any selection: history() does not return **iff** the selection is non-empty and there is a
+    result position `j` such that the reads at all earlier positions returned and the read at position `j` — which depends on
+    that position alone (`valuesAt`, it seeks there first) — does not return.  So termination of the call is termination of at
+    most `len(_pos)` independent per-position reads; nothing else in the call (the selection, the loop over the positions, the
+    bookkeeping of indices) can spin. -/
+theorem history_spins_iff_some_position_spins (items : List Item) (short : Bool) (env : Rd) (c : Cur) :
+    historyC items short env c = .error .diverges ↔
+      ∃ tsel, orderedSelection env items = .ok tsel ∧ tsel.isEmpty = false ∧
+        ∃ j pb, (resultPositions env)[j]? = some pb ∧
+          valuesAt env tsel short (fileTablesOf env) env pb j = .error .diverges ∧
+          ∀ j' pb', j' < j → (resultPositions env)[j']? = some pb' →
+            ∃ h, valuesAt env tsel short (fileTablesOf env) env pb' j' = .ok h := by
+  rw [historyC_error_iff, visitAll_error_iff_exists]
+  constructor
+  · intro h
+    rcases h with h | h
+    · exact absurd h (ordered_selection_never_spins env items)
+    · exact h
+  · intro h; exact .inr h
+where
+  visitAll_error_iff_exists : (orderedSelection env items = .error .diverges ∨
+      ∃ tsel, orderedSelection env items = .ok tsel ∧ tsel.isEmpty = false ∧
+        visitAll (valuesAt env tsel short (fileTablesOf env) env) (resultPositions env) 0 = .error .diverges) =
+    (orderedSelection env items = .error .diverges ∨
+      ∃ tsel, orderedSelection env items = .ok tsel ∧ tsel.isEmpty = false ∧
+        ∃ j pb, (resultPositions env)[j]? = some pb ∧
+          valuesAt env tsel short (fileTablesOf env) env pb j = .error .diverges ∧
+          ∀ j' pb', j' < j → (resultPositions env)[j']? = some pb' →
+            ∃ h, valuesAt env tsel short (fileTablesOf env) env pb' j' = .ok h) := by
+    congr 1
+    apply propext
+    constructor
+    · intro ⟨tsel, h1, h2, h3⟩
+      obtain ⟨j, pb, a, b, d⟩ := (visitAll_error_iff _ _ 0 _).mp h3
+      exact ⟨tsel, h1, h2, j, pb, a, by simpa using b, fun j' pb' x y => by simpa using d j' pb' x y⟩
+    · intro ⟨tsel, h1, h2, j, pb, a, b, d⟩
+      exact ⟨tsel, h1, h2, (visitAll_error_iff _ _ 0 _).mpr ⟨j, pb, a, by simpa using b, fun j' pb' x y => by simpa using d j' pb' x y⟩⟩
+
+/-- One table at one result position, every simulator, exactly: reading the selected lines of table `tn` does not return
+    **iff** the table is known, has a column, and from the file position on no line — nor the `''` read at end of file — shows the
+    number of floats `skip_to_results_line` waits for.  (On any file where a results line of the table follows, it returns.) -/
+theorem history_table_spins_iff (tn : String) (ts : List Sel) (env : Rd) (c : Cur) :
+    historyTable tn ts env c = .error .diverges ↔
+      ∃ t, env.tables.lookup tn = some t ∧ t.cols ≠ [] ∧
+        isResultsLine [] (Proofs.SeriesTerm.expectedFloats tn t.cols) = false ∧
+        ∀ l ∈ c.pos.rest, isResultsLine (strip l) (Proofs.SeriesTerm.expectedFloats tn t.cols) = false :=
+  Proofs.SeriesTerm.historyTable_diverges_iff tn ts env c
+
+/-- `skip_to_results_line` spins exactly when neither a remaining line nor the `''` read at end of file is a results line -/
+theorem skip_to_results_line_spins_iff (e : Int) (rest : List Str) (n k : Nat) :
+    skipToResultsLineL e rest n k = none ↔ (isResultsLine [] e = false ∧ ∀ l ∈ rest, isResultsLine (strip l) e = false) :=
+  Proofs.SeriesTerm.skipToResultsLineL_spins_iff e rest n k
+
+-- on the two-time file above the call returns; cut after the keyword line of the second result (no row line left) it does not,
+-- and the position that spins is the second one (the first was read)
+private def exCut : Rd := { exEnv with all := exR1 ++ exR2.take 3, allpos := #[⟨0, exR1 ++ exR2.take 3⟩, ⟨6, exR2.take 3⟩] }
+example : (match historyC exItems false exCut ⟨exCut.pos, 0⟩ with | .error .diverges => true | _ => false) = true := by decide +kernel
+example : (match orderedSelection exCut exItems with
+    | .ok tsel => (match valuesAt exCut tsel false (fileTablesOf exCut) exCut ⟨⟨6, exR2.take 3⟩, false⟩ 1,
+                         valuesAt exCut tsel false (fileTablesOf exCut) exCut ⟨⟨0, exR1 ++ exR2.take 3⟩, false⟩ 0 with
+        | .error .diverges, .ok _ => true
+        | _, _ => false)
+    | _ => false) = true := by decide +kernel
+example : skipToResultsLineL 2 [" EEEEE\n".toList, "\n".toList] 0 1 = none := by decide
 
 /-! ### afterwards the reader still shows the same current time and tables as before the call -/
 
